@@ -134,7 +134,7 @@ impl Report {
 		}
 	}
 	pub fn inconclusive(&mut self, why: &str) {
-		if self.inconclusive.len() < 50 {
+		if self.inconclusive.len() < 50 && !self.inconclusive.iter().any(|w| w == why) {
 			self.inconclusive.push(why.to_string());
 		}
 	}
